@@ -11,7 +11,7 @@ import os
 from . import common as C
 
 TGT, FOO, BAR = "VfTgt", "VfFoo", "VfBar"
-CLS_JSON = {"Integer": "Int", "String": "String", "Foo": FOO, "Bar": BAR, "NilClass": "NilClass", "Float": "Float"}
+CLS_JSON = {"Integer": "Int", "String": "String", "Foo": FOO, "Bar": BAR, "NilClass": "NilClass", "Float": "Float", "untyped": "Untyped"}
 
 PREAMBLE = [
     ("o", "%s.new" % TGT, None),
